@@ -65,7 +65,7 @@ def abstract_state(st, edges):
     if elem == -1 or not (0 <= elem < len(edges)):
         return out
     g = edges[elem]
-    n2s = sorted({(g[k + 1][0] - g[k][0]) ** 2 + (g[k + 1][1] - g[k][1]) ** 2 for k in range(len(g) - 1)} | {1})
+    n2s = sorted(v for v in ({(g[k + 1][0] - g[k][0]) ** 2 + (g[k + 1][1] - g[k][1]) ** 2 for k in range(len(g) - 1)} | {1}) if v > 0)
     try:
         x, y, ds, dt = float(p.getX()), float(p.getY()), float(ds), float(dt)
     except Exception:
@@ -78,7 +78,7 @@ def abstract_state(st, edges):
             g_ = math.gcd(math.gcd(abs(xn), abs(yn)), d)
             pt = [xn // g_, yn // g_, d // g_]
             break
-    lens = sorted({int(round(math.sqrt(v))) for v in n2s} | {1})
+    lens = sorted(v for v in ({int(round(math.sqrt(v))) for v in n2s} | {1}) if v > 0)
     rs, rt = rat(ds, lens), rat(dt, lens)
     if pt is None or rs is None or rt is None:
         out["lat"] = False
@@ -180,6 +180,9 @@ def gen_network(rnd, nedges, vertical=True):
             g.append(nxt)
         if len(g) < 2:
             continue
+        if len(g) >= 3 and rnd.random() < 0.3:      # a repeated consecutive vertex (zero-length leg), as digitised networks have
+            k = rnd.randrange(1, len(g) - 1)
+            g = g[:k] + [g[k]] + g[k:]
         edges.append(g)
         nodes.append(g[-1])
     xs = [p[0] for g in edges for p in g]
